@@ -63,6 +63,12 @@ class NumpyO:
 
     np_around = np_rint = np_round
 
+    def np_cos(self, interp, x):
+        return _elementwise(lambda v: npreal.r_cos(v) if is_sym(v) else math.cos(v), x)
+
+    def np_sin(self, interp, x):
+        return _elementwise(lambda v: npreal.r_sin(v) if is_sym(v) else math.sin(v), x)
+
     def np_logical_and(self, interp, a, b):
         return _np.logical_and(a, b)
 
@@ -193,16 +199,54 @@ def _np_zeros2(self, interp, shape, dtype=float, **k):
     return _np.zeros(shape, dtype=dtype, **k)
 
 
-def _np_einsum(self, interp, spec, a, b):
-    if spec == "...ji,...jk->...ik":
-        a, b = _np.asarray(a, dtype=object), _np.asarray(b, dtype=object)
-        out = _np.empty(a.shape[:-2] + (a.shape[-1], b.shape[-1]), dtype=object)
-        for lead in _np.ndindex(*a.shape[:-2]):
-            for i in range(a.shape[-1]):
-                for kk in range(b.shape[-1]):
-                    out[lead + (i, kk)] = sum(a[lead + (j, i)] * b[lead + (j, kk)] for j in range(a.shape[-2]))
-        return out.view(OArr)
-    return _np.einsum(spec, a, b)
+def _np_einsum(self, interp, spec, *ops):
+    """einsum by its definition (explicit index loops) for object arrays of symbolic scalars: explicit output form `in1,in2->out`,
+    an ellipsis stands for the same leading/trailing axes in every operand (NumPy broadcasts them right-aligned)"""
+    arrs = [_np.asarray(o, dtype=object) if not (isinstance(o, _np.ndarray) and o.dtype != object) else o for o in ops]
+    if not any(isinstance(a, _np.ndarray) and a.dtype == object for a in arrs):
+        return _np.einsum(spec, *ops)
+    spec = spec.replace(" ", "")
+    if "->" not in spec:
+        raise core.Unsupported("einsum without explicit output")
+    ins, out = spec.split("->")
+    ins = ins.split(",")
+    if len(ins) != len(arrs):
+        raise core.Unsupported("einsum operand count")
+    nell = 0
+    for s_, a in zip(ins, arrs):
+        if "..." in s_:
+            nell = max(nell, a.ndim - len(s_.replace("...", "")))
+    ell = [f"<e{k}>" for k in range(nell)]
+
+    def labels(s_, nd):
+        if "..." in s_:
+            pre, post = s_.split("...")
+            k = nd - len(pre) - len(post)
+            return list(pre) + ell[nell - k:] + list(post)
+        return list(s_)
+    in_labels = [labels(s_, a.ndim) for s_, a in zip(ins, arrs)]
+    out_labels = labels(out, len(out.replace("...", "")) + (nell if "..." in out else 0))
+    size = {}
+    for ls, a in zip(in_labels, arrs):
+        if len(ls) != a.ndim:
+            raise core.Unsupported("einsum subscripts do not match the operand")
+        for l, n in zip(ls, a.shape):
+            if size.setdefault(l, n) != n:
+                raise core.Unsupported("einsum size mismatch")
+    summed = [l for l in size if l not in out_labels]
+    res = _np.empty(tuple(size[l] for l in out_labels), dtype=object)
+    import itertools
+    for oidx in itertools.product(*[range(size[l]) for l in out_labels]):
+        env = dict(zip(out_labels, oidx))
+        tot = 0
+        for sidx in itertools.product(*[range(size[l]) for l in summed]):
+            env.update(zip(summed, sidx))
+            term_ = 1
+            for ls, a in zip(in_labels, arrs):
+                term_ = term_ * a[tuple(env[l] for l in ls)]
+            tot = tot + term_
+        res[oidx] = tot
+    return res.view(OArr) if res.ndim else res[()]
 
 
 NumpyO.np_zeros = _np_zeros2
